@@ -106,6 +106,7 @@ Definition spec_step (L : ledger) (o : cop) : outcome :=
            let gone := filter (h_sel f q) (l_h L) in
            (mkL (l_u L) (l_a L) (l_s L) (filter (fun r => negb (h_sel f q r)) (l_h L)),
             RBool (nonempty gone), map rec_h gone, [])
+  | UtilityBoth _ _ _ _ => (L, RTypeError, [], [])    (* rejected before anything happens *)
   | Reinit => (lempty, RNone, [], [])              (* test clean-up: everything forgotten, silently *)
   end.
 
